@@ -1,6 +1,6 @@
 """C01 - insertions/deletions views are the page plus markers."""
 import render_checks as rc
-from props.render_common import run_render
+from props.render_common import run_render, replay_known
 
 
 def alone_equals_all(a, b, r_all):
@@ -17,6 +17,7 @@ def alone_equals_all(a, b, r_all):
 def run(rep, ctx):
     run_render(rep, ctx, 'c01', [('page-plus-markers', rc.c01_failures), ('alone-vs-all', alone_equals_all)],
                n_quick=500, n_thorough=8000, identity=True, big=True, small_caps=True)
+    replay_known(rep, 'C01', rc.c01_failures)
 
 
 def replay(rep, data):
